@@ -15,6 +15,8 @@ CONSTANTS
   SnOff <- SnOff00
   ClkOff = 0
   Drive = "free"
+  HealEnabled = FALSE
+  ReaderPaused <- NoPause
   Forged <- NoForged
   SimDepth = 80
 INVARIANTS EmitBeh Prefix MsgPrefix WindowDiscipline OutSizeOK AdmitBelowWindow NoAdmitAfterLoss
